@@ -980,7 +980,14 @@ type txCase struct {
 var txView = viewSpec{Rules: []ruleT{{"lit", "s.lit", "read-write"}, {"top.one", "s.one", "read-write"}, {"top.two", "s.two", "read-write"},
 	{"ph.{k}", "p.{k}.v", "read-write"}, {"n", "s.n", "read-write"}, {"n.in", "s.n.in", "read-write"}, {"wo", "s.wo", "write"}}}
 
-func txOps(tag int) []op {
+func txOps(tag int, full bool) []op {
+	if !full {
+		// unrelated (lit / top.one), overlapping (n / n.in / unset n) and a commit the schema rejects
+		return []op{
+			{Kind: "set", Req: "lit", Val: 10 + tag}, {Kind: "set", Req: "top.one", Val: 20 + tag}, {Kind: "set", Req: "n", Val: M{"in": 50 + tag}},
+			{Kind: "set", Req: "n.in", Val: 60 + tag}, {Kind: "unset", Req: "n"}, {Kind: "set", Req: "top.two", Val: 3},
+		}
+	}
 	return []op{
 		{Kind: "set", Req: "lit", Val: 10 + tag}, {Kind: "set", Req: "top.one", Val: 20 + tag}, {Kind: "set", Req: "top.two", Val: 30 + tag},
 		{Kind: "set", Req: "ph.x", Val: 40 + tag}, {Kind: "set", Req: "n", Val: M{"in": 50 + tag}}, {Kind: "set", Req: "n.in", Val: 60 + tag},
@@ -1084,6 +1091,18 @@ func runTxCase(view *registry.View, c txCase) []viol {
 	return vs
 }
 
+// partTimeUp: the view part may use this fraction of the soft budget, the rest is for the transactions
+func partTimeUp(r *eng.Run, frac float64) bool {
+	budget := 100.0
+	if r.Thorough() {
+		budget = 900
+	}
+	if b := os.Getenv("VERIF_BUDGET_S"); b != "" {
+		fmt.Sscanf(b, "%f", &budget)
+	}
+	return r.Elapsed().Seconds() > frac*budget
+}
+
 // earlyStop: in --mutants / --patch runs (no evidence is written) one violation is all that is asked for
 func earlyStop(r *eng.Run) bool {
 	return os.Getenv("VERIF_NO_EVIDENCE") != "" && r.NumViolations() > 0
@@ -1159,9 +1178,12 @@ func TestVerifC30(t *testing.T) {
 		r.Finish("replay")
 	}
 
+	// part 3 first (small)
+	runStatePart(r)
+
 	views := allViews()
 	ops := allOps()
-	depth := r.Pick(3, 5)
+	depth := r.Pick(2, 3)
 	var evals, nontriv, states, transitions, rawPartial, rejected, rejectedChecked int64
 	eng.ParallelFor(len(views), func(vi int) {
 		vs := views[vi]
@@ -1185,6 +1207,11 @@ func TestVerifC30(t *testing.T) {
 		for d := 0; d < depth && len(frontier) > 0; d++ {
 			var next []st
 			for _, s := range frontier {
+				if partTimeUp(r, 0.6) {
+					r.Cap("time", fmt.Sprintf("view exploration stopped at depth %d", d+1))
+					frontier, next = nil, nil
+					break
+				}
 				for _, o := range ops {
 					res := runStep(vs, view, s.bag, o)
 					ev++
@@ -1216,10 +1243,7 @@ func TestVerifC30(t *testing.T) {
 			if earlyStop(r) {
 				break
 			}
-			if r.TimeUp() {
-				r.Cap("time", fmt.Sprintf("view exploration stopped at depth %d", d+1))
-				break
-			}
+
 		}
 		atomic.AddInt64(&evals, ev)
 		atomic.AddInt64(&nontriv, nt)
@@ -1244,7 +1268,7 @@ func TestVerifC30(t *testing.T) {
 	maxOps := r.Pick(2, 2)
 	var lists [2][][]op
 	for tx := 0; tx < 2; tx++ {
-		o := txOps(tx + 1)
+		o := txOps(tx+1, r.Thorough())
 		lists[tx] = append(lists[tx], nil)
 		for _, a := range o {
 			lists[tx] = append(lists[tx], []op{a})
@@ -1292,8 +1316,6 @@ func TestVerifC30(t *testing.T) {
 		atomic.AddInt64(&txNontriv, nt)
 	})
 	r.Add("transaction_interleavings", txEvals)
-	// part 3
-	runStatePart(r)
 	r.Add("evaluations", evals+txEvals)
 	r.Add("distinct_nontrivial", nontriv+txNontriv)
 	r.Add("states", states)
